@@ -66,11 +66,11 @@ TEXT["C14"] = {
     "technique": "property-based testing (rapid): generated histories through ReadOnly / Immutable / ocimem immutable-tags with history invariants (full observable snapshot equality, tag ledger, monotone content, reference closure) checked after every step",
     "level_text": "Generated histories (tagged and untagged pushes of equal/different content under few tags, image manifests and nested indexes, deletes aimed at tagged manifests and what they reference, mounts, uploads). ReadOnly: every mutating call fails with ErrUnsupported and a byte-level snapshot of everything observable in the underlying registry is identical after every call. Immutable / immutable-tags: a ledger of every (repository, tag) -> (digest, bytes) ever observed must keep holding after every step; through Immutable every delete fails and retrievable content only grows; in immutable-tags mode the closure of every tagged manifest over layers, config and nested index children stays retrievable.",
     "design_ref": "DESIGN.md section 3, C14",
-    "level_note": "Sampling of sequential histories; concurrency for the immutable-tags mode is covered by C08's workloads. Media-type disagreement between a referring descriptor and the stored manifest is not generated.",
+    "level_note": "Sampling of sequential histories; concurrency for the immutable-tags mode is covered by C08's workloads. Structured manifests are also re-pushed under an opaque media type (which found and now guards fix d9613d5).",
 }
 TEXT["C15"] = {
-    "technique": "property-based testing (rapid): (a) reads through ociunify over two independently generated member states, oracle computed from the members' own answers, both read policies, delayed member; (b) differential write histories: unifier over two equal members vs a lone registry, member-equality invariant after every step",
-    "level_text": "(a) Pairs of member states (equal / disjoint / overlapping / conflicting tags / repository on one side) are produced by two generated histories; reads aimed at what either touched go through the unifier under both policies, optionally with the content holder delayed: digest reads succeed iff a member has the content (with its bytes), tag reads never choose silently between conflicting digests, listings are the sorted duplicate-free union with NAME_UNKNOWN only when both members say so. (b) The same write history (incl. chunked uploads, resume in both modes, cancel-then-resume) is applied through the unifier over two equal members and to a lone registry: success/failure and results must agree and all three registries must stay observably identical after every step.",
+    "technique": "property-based testing (rapid): (a) reads through ociunify over two independently generated member states, oracle computed from the members' own answers, both read policies, delayed member; (b) differential write histories: unifier over two equal members vs a lone registry, member-equality invariant after every step; (c) fault injection: one member behind a layer that fails chosen write calls, effect of every successful write looked up in both members",
+    "level_text": "(a) Pairs of member states (equal / disjoint / overlapping / conflicting tags / repository on one side) are produced by two generated histories; reads aimed at what either touched go through the unifier under both policies, optionally with the content holder delayed: digest reads succeed iff a member has the content (with its bytes), tag reads never choose silently between conflicting digests, listings are the sorted duplicate-free union with NAME_UNKNOWN only when both members say so. (b) The same write history (incl. chunked uploads, resume in both modes, cancel-then-resume) is applied through the unifier over two equal members and to a lone registry: success/failure and results must agree and all three registries must stay observably identical after every step. (c) One member fails chosen write calls (at entry, after consuming the content, at commit), failed calls are retried: a call during which a member failed must not report success, and the effect of every call that reports success must be present in both members.",
     "design_ref": "DESIGN.md section 3, C15",
     "level_note": "Sampling. Exact answer orders and cancellation points are decided in C16 with controlled schedules.",
 }
